@@ -19,9 +19,18 @@ Pure functions (tied to the code through AES-GCM tags verified by the harness):
   ranges <size> <c> <payload runs> <s:e,s:e,…>     get_ranges over an object of `size` bytes whose payload object
        holds the given symbolic bytes (runs as above)
                                                    -> ok <runs>;<runs>… fetched <s:e,…>  |  err:<class>
-  stream <size> <c> <startIdx> <startOffset> <len> <segs>   (first argument: size of the object written)
+  stream <size> <c> <startIdx> <startOffset> <len> <segs> [tags=<n>]   (first argument: size of the object
+       written; `tags=<n>` keeps only the first n chunk tags in the document)
+Byte layout and writer shape (Model/EncLayout.lean):
+  cbor <size> <e> <o> <v> <nonce:hex> <c> <av> <tags> <an> <at> <g> <m>   -> <hex>   the sidecar document bytes
+  paths <loc:hex> <g>                              -> <meta path hex> <payload path hex>
+  putshape <size> <c>                              -> s=… ntags=… c=… av=… o=… v=… an=… at=… g=… m=… payload=…
+  mput <c> <part sizes|->                          -> fwd=<sizes of the parts forwarded to the backend> <shape as above> eqput=<0|1>
+  copyshape <av|-> <an> <at>                       -> av=<pinned version> | err:<class>     copy_opts' document
+  rcs <store chunk> <document c|->                 -> <chunk size used for reading>        read_chunk_size
 -/
 import AndaVerif.Model.Enc
+import AndaVerif.Model.EncLayout
 import AndaVerif.Drv.Util
 
 namespace AndaVerif.Drv.C09
@@ -127,6 +136,13 @@ def pairs? (s : String) : Option (List (Nat × Nat)) :=
 def showPairs (ps : List (Nat × Nat)) : String :=
   if ps.isEmpty then "-" else ",".intercalate (ps.map fun (a, b) => s!"{a}:{b}")
 
+def b01 (b : Bool) : String := if b then "1" else "0"
+
+def shape (m : Meta) (payloadLen : Nat) : String :=
+  let c := match m.chunkSize with | some c => toString c | none => "-"
+  let av := match m.chunkAadVersion with | some v => toString v | none => "-"
+  s!"s={m.size} ntags={m.aesTags.length} c={c} av={av} o={b01 m.originalTag.isSome} v={b01 m.originalVersion.isSome} an={b01 m.authNonce.isSome} at={b01 m.authTag.isSome} g={b01 m.generation.isSome} m={b01 m.committedAtMs.isSome} payload={payloadLen}"
+
 def step (_ : Unit) (line : String) : Unit × String :=
   let bad := ((), "err:protocol")
   match words line with
@@ -174,6 +190,17 @@ def step (_ : Unit) (line : String) : Unit × String :=
         let rr := match p.rr with | none => "-" | some (a, b) => s!"{a}:{b}"
         ((), s!"ok {p.rStart} {p.rEnd} {rr} {p.startIdx} {p.startOffset} {p.len}")
     | _, _, _ => bad
+  | ["stream", size, c, startIdx, startOffset, len, segs, ntags] =>
+    match size.toNat?, c.toNat?, startIdx.toNat?, startOffset.toNat?, len.toNat?, segs? segs,
+          (ntags.drop 5).toString.toNat? with
+    | some size, some c, some si, some so, some len, some segs, some nt =>
+      let (_, m0) := toyObject size c
+      let m := { m0 with aesTags := m0.aesTags.take nt }
+      match decStream toyAEAD ⟨m, c, si, so⟩ len segs with
+      | .done out => ((), s!"ok {showRuns out}")
+      | .fail e out => ((), s!"{errName e} {showRuns out}")
+      | .cont _ => ((), "err:internal")
+    | _, _, _, _, _, _, _ => bad
   | ["stream", size, c, startIdx, startOffset, len, segs] =>
     match size.toNat?, c.toNat?, startIdx.toNat?, startOffset.toNat?, len.toNat?, segs? segs with
     | some size, some c, some si, some so, some len, some segs =>
@@ -193,6 +220,57 @@ def step (_ : Unit) (line : String) : Unit × String :=
       | .ok (outs, fetched) =>
         ((), s!"ok {";".intercalate (outs.map showRuns)} fetched {showPairs fetched}")
     | _, _, _, _ => bad
+  | ["cbor", size, e, o, v, n, c, av, tags, an, at_, g, m] =>
+    match size.toNat?, optStr? e, optStr? o, optStr? v, unhex n, optNat? c, optNat? av,
+          tags? tags, optStr? an, optStr? at_, optStr? g, optNat? m with
+    | some size, some e, some o, some v, some n, some c, some av, some tags, some an, some at_, some g, some m =>
+      let md : Meta := { size := size, eTag := e, originalTag := o, originalVersion := v, aesNonce := n,
+                         aesTags := tags, chunkSize := c, chunkAadVersion := av, authNonce := an,
+                         authTag := at_, generation := g, committedAtMs := m }
+      ((), hex (encodeDoc md))
+    | _, _, _, _, _, _, _, _, _, _, _, _ => bad
+  | ["paths", loc, g] =>
+    match unhex loc, optStr? g with
+    | some loc, some g => ((), s!"{hex (metaPath loc)} {hex (payloadPath loc g)}")
+    | _, _ => bad
+  | ["putshape", size, c] =>
+    match size.toNat?, c.toNat? with
+    | some size, some c =>
+      let (payload, m) := toyObject size c
+      ((), shape m payload.length)
+    | _, _ => bad
+  | ["mput", c, parts] =>
+    match c.toNat?, natList? parts with
+    | some c, some sizes =>
+      -- parts of consecutive positions
+      let rec mk (off : Nat) : List Nat → List (List Nat)
+        | [] => []
+        | n :: ns => ((List.range n).map (off + ·)) :: mk (off + n) ns
+      let ps := mk 0 sizes
+      let ws := mpWrites toyAEAD c [120] ps toyFresh
+      let fwd := (ws.dropLast).map (·.bytes.length)
+      let (_, st) := mpForward toyAEAD c toyFresh.baseNonce MpState.init ps
+      let fin := mpComplete toyAEAD c [120] toyFresh st
+      let eq := decide (fin = writeObject toyAEAD c [120] ps.flatten toyFresh)
+      ((), s!"fwd={showNats fwd} {shape fin.2 fin.1.length} eqput={if eq then 1 else 0}")
+    | _, _ => bad
+  | ["copyshape", av, an, at_] =>
+    match optNat? av with
+    | some av =>
+      let src : Meta := { size := 0, eTag := none, originalTag := some [1], originalVersion := some [2], aesNonce := [],
+                          aesTags := [], chunkSize := none, chunkAadVersion := av,
+                          authNonce := if an = "1" then some [] else none,
+                          authTag := if at_ = "1" then some [] else none, generation := none, committedAtMs := none }
+      match copyMeta toyAEAD [121] src toyFresh with
+      | .error e => ((), errName e)
+      | .ok d => ((), s!"av={match d.chunkAadVersion with | some v => toString v | none => "-"} o={if d.originalTag.isSome then 1 else 0} v={if d.originalVersion.isSome then 1 else 0} g={if d.generation.isSome then 1 else 0} m={if d.committedAtMs.isSome then 1 else 0} an={if d.authNonce.isSome then 1 else 0} at={if d.authTag.isSome then 1 else 0}")
+    | none => bad
+  | ["rcs", sc, c] =>
+    match sc.toNat?, optNat? c with
+    | some sc, some c =>
+      let md : Meta := { forgedLegacyDoc with chunkSize := c }
+      ((), toString (readChunkSize sc md))
+    | _, _ => bad
   | _ => bad
 
 end AndaVerif.Drv.C09
